@@ -481,6 +481,22 @@ pub fn batch(engine: &dyn Engine, a: &BatchArgs) -> i32 {
             fired.insert(k.clone(), *n);
         }
     }
+    // recorded sensitivity experiments (mutants and independently written breaking changes)
+    let mut sensitivity = Vec::new();
+    for sub in ["mutants/results", "seeded/results"] {
+        if let Ok(rd) = fs::read_dir(verif_dir().join(sub)) {
+            let mut files: Vec<PathBuf> = rd.filter_map(|e| e.ok().map(|e| e.path())).collect();
+            files.sort();
+            for f in files {
+                let name = f.file_name().and_then(|n| n.to_str()).unwrap_or("").to_string();
+                if name.starts_with(&format!("{}-", a.prop)) {
+                    if let Some(first) = fs::read_to_string(&f).ok().and_then(|t| t.lines().next().map(|l| l.to_string())) {
+                        sensitivity.push(first);
+                    }
+                }
+            }
+        }
+    }
     let wall = t0.elapsed().as_secs_f64();
     let evaluations = agg.evaluations.max(1);
     let evidence = json!({
@@ -510,6 +526,7 @@ pub fn batch(engine: &dyn Engine, a: &BatchArgs) -> i32 {
             "components_stubbed": info.stubbed,
             "components_not_exercised": info.not_exercised,
             "known_findings_hit": known_hits,
+            "sensitivity_recorded": sensitivity,
             "violations_reported": reported,
             "harness_errors": harness_errors,
             "workers": a.workers,
